@@ -208,6 +208,110 @@ fn dec_bits(m: i128, scale: u32) -> [u8; 16] {
     Decimal::from_i128_with_scale(m, scale).serialize()
 }
 
+/// Extreme shapes: deep nesting, long flat chains, wide aggregates, long digit and superscript runs.
+/// Lengths up to 256 characters (the bound the properties quantify over).
+fn gen_extreme(r: &mut Rng, v: &Vocab) -> String {
+    let leaf = |r: &mut Rng| if r.chance(0.5) { "@".to_string() } else { ["1", "2", "3", "7", "10"][r.below(5)].to_string() };
+    let ops: Vec<&str> = v.binops.iter().copied().filter(|o| ["+", "-", "*"].contains(o)).collect();
+    match r.below(8) {
+        0 => {
+            // deep parentheses: depth 2..=124
+            let d = [2usize, 5, 16, 31, 32, 33, 60, 62, 63, 64, 65, 66, 70, 90, 120, 124][r.below(16)];
+            format!("{}{}{}", "(".repeat(d), leaf(r), ")".repeat(d))
+        }
+        1 => {
+            // deep parentheses with an operator at every level: ((((@+1)+1)+1)...
+            let d = [3usize, 10, 20, 30, 40, 50, 60][r.below(7)];
+            let op = r.pick(&ops).to_string();
+            let mut s = leaf(r);
+            for _ in 0..d {
+                s = format!("({}{}1)", s, op);
+            }
+            s
+        }
+        2 => {
+            // chain of unary functions / signs
+            let d = [3usize, 8, 20, 40, 64, 80][r.below(6)];
+            if r.chance(0.5) {
+                format!("{}{}", "-".repeat(d), leaf(r))
+            } else {
+                let f = r.pick(&v.unary).to_string();
+                let d = d.min(250 / (f.len() + 2));
+                format!("{}{}{}", format!("{}(", f).repeat(d), leaf(r), ")".repeat(d))
+            }
+        }
+        3 => {
+            // long flat chain
+            let n = [10usize, 20, 33, 40, 64, 80, 120][r.below(7)];
+            let op = r.pick(&ops).to_string();
+            let mut s = leaf(r);
+            for i in 0..n {
+                s.push_str(&op);
+                if i % 7 == 3 {
+                    s.push('@');
+                } else {
+                    s.push_str(["1", "2", "3"][i % 3]);
+                }
+            }
+            s
+        }
+        4 if !v.aggr.is_empty() => {
+            // wide aggregate
+            let n = [7usize, 8, 9, 12, 16, 17, 25, 32, 40][r.below(9)];
+            let f = r.pick(&v.aggr).to_string();
+            let args: Vec<String> = (0..n)
+                .map(|i| match i % 4 {
+                    0 => "@".to_string(),
+                    1 => format!("@+{}", i),
+                    2 => format!("{}", i * 3 % 11),
+                    _ => format!("{}*@", i),
+                })
+                .collect();
+            format!("{}({})", f, args.join(","))
+        }
+        5 => {
+            // long digit run / long superscript run
+            let n = [5usize, 15, 16, 17, 18, 19, 20, 30, 40][r.below(9)];
+            let digits: String = (0..n).map(|i| char::from(b'1' + ((i * 7 + 3) % 9) as u8)).collect();
+            match r.below(3) {
+                0 => format!("{}+@", digits),
+                1 => {
+                    let sup: String = digits.chars().take(n.min(6)).map(|c| ['⁰', '¹', '²', '³', '⁴', '⁵', '⁶', '⁷', '⁸', '⁹'][c as usize - '0' as usize]).collect();
+                    format!("@{}", sup)
+                }
+                _ => {
+                    if v.floats {
+                        format!("0.{}*@", digits)
+                    } else {
+                        format!("{}-@", digits)
+                    }
+                }
+            }
+        }
+        6 => {
+            // nested brackets of mixed kinds with juxtaposition
+            let d = [3usize, 6, 12, 24][r.below(4)];
+            let mut s = leaf(r);
+            for i in 0..d {
+                s = if v.brackets && i % 3 == 1 {
+                    format!("⌊{}⌋", s)
+                } else if v.brackets && i % 3 == 2 {
+                    format!("⌈{}⌉", s)
+                } else {
+                    format!("2({})", s)
+                };
+            }
+            s
+        }
+        _ => {
+            // a sum of many function calls
+            let n = [6usize, 12, 20][r.below(3)];
+            let parts: Vec<String> = (0..n).map(|i| format!("{}(@+{})", v.unary[i % v.unary.len()], i)).collect();
+            parts.join("+")
+        }
+    }
+}
+
 /// Placeholder values for an evaluator; index 0 is the type's default value.
 pub fn placeholders(r: &mut Rng, ev: Ev) -> Vec<Ph> {
     let fb = |x: f64| x.to_bits();
@@ -338,10 +442,25 @@ pub struct Entry {
     pub trace: u64,
     /// the expression's isolated outcome varies with the placeholder (set by index_pool)
     pub sensitive: bool,
+    /// dense id of the expression text (shared by all evaluators that were given the same text)
+    pub text_id: u32,
+}
+
+impl Pool {
+    /// assign dense text ids (call after the entry list is final)
+    pub fn assign_text_ids(&mut self) {
+        let mut ids: BTreeMap<String, u32> = BTreeMap::new();
+        for e in self.entries.iter_mut() {
+            let n = ids.len() as u32;
+            e.text_id = *ids.entry(e.call.expr.clone()).or_insert(n);
+        }
+        self.n_texts = ids.len();
+    }
 }
 
 #[derive(Clone, Debug, Default)]
 pub struct Pool {
+    pub n_texts: usize,
     pub entries: Vec<Entry>,
     /// expr_id -> entry indices (same evaluator, same text, different placeholders)
     pub by_expr: Vec<Vec<u32>>,
@@ -353,6 +472,7 @@ pub struct PoolSizes {
     pub gen_per_ev: usize,
     pub cross_texts: usize,
     pub malformed_per_ev: usize,
+    pub extreme_per_ev: usize,
     pub max_corpus: usize,
 }
 
@@ -393,6 +513,7 @@ pub fn build_pool(seed: u64, repo: &str, sz: &PoolSizes) -> Pool {
                 ticks: 0,
                 trace: 0,
                 sensitive: false,
+                text_id: 0,
             });
         }
         pool.by_expr.push(idxs);
@@ -467,6 +588,18 @@ pub fn build_pool(seed: u64, repo: &str, sz: &PoolSizes) -> Pool {
                     add_expr(&mut pool, &mut r, e, t.clone(), "cross_evaluator", nph);
                 }
             }
+        }
+    }
+    // (e) extreme shapes
+    for e in ALL_EV {
+        let v = vocab(Some(e));
+        for _ in 0..sz.extreme_per_ev {
+            let mut t = gen_extreme(&mut r, &v);
+            if t.chars().count() > 256 {
+                t = t.chars().take(256).collect();
+            }
+            let nph = if t.contains('@') { r.range(2, 4) } else { 1 };
+            add_expr(&mut pool, &mut r, e, t, "extreme_shape", nph);
         }
     }
     // (c) near-miss malformed strings
